@@ -279,6 +279,27 @@ theorem release_then_acquire {es : List Ev} {s s' : LState} {t u : Tid} {m : Mut
       · obtain ⟨k, l, hkl, hk, hl⟩ := ih (inv_step hi hs) h (hold_kept hs h₁ he)
         exact ⟨k + 1, l + 1, Nat.succ_lt_succ hkl, by simpa using hk, by simpa using hl⟩
 
+theorem holdsB_sound {s : LState} {t : Tid} {h : Hold} (hb : holdsB s t h = true) : holdsIn s t h := by
+  unfold holdsB at hb
+  unfold holdsIn
+  cases hm : h.mode <;> rw [hm] at hb <;> simp only at hb ⊢
+  · exact eq_of_beq hb
+  · exact List.contains_iff_mem.1 hb
+
+theorem respectsB_sound {tbl : List Access} {tr : List Ev} (h : respectsB tbl tr = true) : Respects tbl tr := by
+  intro i t a hi
+  have hlt : i < tr.length := (List.getElem?_eq_some_iff.1 hi).1
+  unfold respectsB at h
+  rw [List.all_eq_true] at h
+  have := h i (List.mem_range.2 hlt)
+  rw [hi] at this
+  simp only [Bool.and_eq_true, List.all_eq_true] at this
+  refine ⟨List.contains_iff_mem.1 this.1, fun hh hmem => ?_⟩
+  have h2 := this.2 hh hmem
+  cases hr : runL LState.init (tr.take i) with
+  | none => rw [hr] at h2; cases h2
+  | some s => rw [hr] at h2; exact ⟨s, hr, holdsB_sound h2⟩
+
 /-! ### the grouped table -/
 
 theorem keysInc_head_lt {g : Group} {gs : List Group} (h : keysInc (g :: gs) = true) :
